@@ -4,6 +4,18 @@ import json, os, subprocess
 V = "/verif"
 CHECKS = {
  # id: (category, technique, level text, level note, design ref)
+ "C04": ("exploration", "differential runtime oracle: real serializer/processor vs spec layout and source-interpreted Solidity/Ralph parsers",
+         "Generated VAAs (boundary table for every field + random; payloads 0..65535) are serialized by the real code; body/digest compared with an independent layout + x/crypto keccak, parsed back by interpreters built at run time from Messages.sol parseVM and governance.ral parseAndVerifyVAA; invariance (version/set index/signatures/nanos) and single-field injectivity asserted per VAA; two real processors (Run loop, different keys, different set indices) must sign the harness' digest.",
+         "Contract parsers are interpreted from source text by the harness (not EVM/VM execution). Held on the generated inputs only.", "3/C04"),
+ "C05": ("exploration", "reference-decoder oracle over generated/mutated encodings + Go native coverage-guided fuzzing with in-target oracle",
+         "Round trip of generated VAAs (payload 1..70000, 0..255 signatures), structured mutations (truncation at every field boundary, signature-count byte, version, trailing bytes, bit flips, all short lengths) judged by an independent reference decoder (accept iff version 1 and length >= 6+66n+54; every field equal; re-encoding byte-identical), plus go test -fuzz with the re-encode/no-partial-result oracle in the target; panics recovered and reported.",
+         "Fuzzing explores what coverage guidance reaches in the time budget (quick 20 s x 8 workers; thorough 10 min x 16).", "3/C05"),
+ "C06": ("exploration", "reference-predicate oracle over generated guardian lists and every single-step corruption",
+         "The real VerifySignatures is called on lists of length 0..255 (quick: 10 lengths, thorough: all) with 0-2 repeated addresses, valid ascending signature subsets and each corruption from the property (body flip, swap, shuffle, duplicate, re-index, outsider key, recovery byte, r/s zero, high-s twin, drop); boolean compared with an independent reference; both directions of the iff are counted; panics recovered.",
+         "secp256k1 recovery and Keccak are shared with the code under test.", "3/C06"),
+ "C12": ("exploration", "reference-model oracle (map id->bytes) over real badger store, public RPC server and admin service; differential isolation against a single-stream store",
+         "Random multisets of VAAs over prefix-related chain ids (2/25/255, 1/10/10001, 4/42), overlapping sequences and overwrites are stored in a real badger store; every stored id, its near misses and all neighbouring streams are queried through db, PublicrpcServer (GetSignedVAA, Get*VAABatch) and admin FindMissingMessages; answers must equal the model and, for gap scans, the answer of a second store holding only that stream.",
+         "Sequence windows 0..41; non-empty payloads. An empty stream may report sequence 0 as missing (streams start at 0).", "3/C12"),
  "C07": ("exploration", "differential runtime oracle, exhaustive n=0..255, contract formulas extracted from source at run time",
          "Exhaustive over the whole one-byte domain: the real CalculateQuorum is executed for every n in 0..255 and compared with floor(2n/3)+1 and with the quorum expressions read from Messages.sol and governance.ral in the working tree; BFT inequalities asserted per n.",
          "Contract expressions are evaluated by the harness' own integer evaluator (truncating division), not by an EVM/Alephium VM; an expression the extractor cannot parse makes the run inconclusive.", "3/C07"),
